@@ -5,6 +5,7 @@
 // time; every rank 0..c-1 is chosen at least once and none every time; no entry survives 64*c consecutive
 // evictions.  For a uniform choice the probability of a false alarm is below c*exp(-400).
 #include "engine.hpp"
+#include "values.hpp"
 #include "vt.hpp"
 
 #include <algorithm>
@@ -13,11 +14,57 @@
 
 namespace en
 {
+// "mass" variant: a large capacity c (300 / 5 000 / 70 000), 30*c evicting inserts of fresh keys, and then NOT ONE of the original c
+// residents may be left: for a uniform choice the expected number of survivors is c*exp(-30) < 1e-8.  Catches victim draws that can
+// only reach part of a large cache (truncated random numbers, key-derived slots) which the rank histogram at capacity <= 8 cannot see.
+Result run_stats_rr_mass(const cs::Case& c, const Options& opt)
+{
+    Result     res;
+    bx::Config cfg = c.cfg;
+    cfg.kind       = bx::K_RR;
+    const size_t cap = cfg.cap <= 4 ? 300 : cfg.cap <= 7 ? 5000 : 70000;
+    cfg.cap        = cap;
+    cfg.mlf        = 1.0f;
+    vt::reset(cfg.seed);
+    vv::key_mode().store(cfg.kmode);
+    auto box = bx::make_box(cfg);
+    auto fail = [&](const std::string& pred, const std::string& msg) {
+        res.verdict = std::string("C15").find(opt.property) != std::string::npos ? V_VIOLATION : V_FOREIGN;
+        res.pred    = pred;
+        res.tags    = "C15";
+        res.msg     = msg;
+        res.step    = 0;
+        return res;
+    };
+    for (size_t k = 0; k < cap; ++k)
+        box->insert(static_cast<int>(k), k + 1, bx::A_BOTH, 0);
+    const size_t E = 30 * cap;
+    for (size_t j = 0; j < E; ++j)
+        box->insert(static_cast<int>(cap + j), cap + j + 1, bx::A_BOTH, 0);
+    if (box->size() != cap)
+        return fail("rr_mass_size", "size() = " + std::to_string(box->size()) + " after " + std::to_string(E) + " evicting inserts at capacity " + std::to_string(cap));
+    size_t   survivors = 0;
+    uint64_t v         = 0;
+    for (size_t k = 0; k < cap; ++k)
+        if (box->find(static_cast<int>(k), false, v))
+            ++survivors;
+    res.labels["stats_mass_runs"] += 1;
+    res.labels["stats_mass_evictions"] += static_cast<long>(E);
+    if (survivors != 0)
+        return fail("rr_mass_survivors", std::to_string(survivors) + " of the original " + std::to_string(cap) + " residents survived " + std::to_string(E) +
+                                             " evictions (key mode " + std::to_string(cfg.kmode) + "): part of the cache is never chosen");
+    res.nontrivial = true;
+    return res;
+}
+
 Result run_stats_rr(const cs::Case& c, const Options& opt)
 {
+    if (opt.mode == "stats-rr-mass")
+        return run_stats_rr_mass(c, opt);
     Result      res;
     bx::Config  cfg = c.cfg;
     cfg.kind        = bx::K_RR;
+    vv::key_mode().store(cfg.kmode);
     if (cfg.cap < 2)
         cfg.cap = 2;
     if (cfg.cap > 8)
